@@ -145,8 +145,17 @@ def parse(out):
     return recs
 
 
+class BadField(ValueError):
+    """A batch variable that must render as a number (or be absent) rendered as something else."""
+
+
 def num(tok):
-    return None if tok == '-' else int(tok)
+    if tok == '-':
+        return None
+    try:
+        return int(tok)
+    except ValueError:
+        raise BadField(tok)
 
 
 # ---------------------------------------------------------------- monitor on opt
@@ -233,6 +242,19 @@ def call_record(length, vals, container, forms, content='num', rv=None):
 
 def check_window(ctx, mon, T, mode, length, st, en, sz, orp, ovl, container, forms='iiiii', content='num',
                  rv=None):
+    try:
+        return _check_window(ctx, mon, T, mode, length, st, en, sz, orp, ovl, container, forms, content, rv)
+    except BadField as e:
+        # e.g. an entity reference left in the output as literal text: the record cannot be read, which is a
+        # report about the rendering, never a harness error
+        case = {'mode': mode, 'length': length, 'start': st, 'end': en, 'size': sz, 'orphan': orp,
+                'overlap': ovl, 'container': container, 'src': T.src}
+        ctx.violation('a batch variable rendered as %r where a number (or nothing) is documented' % str(e)[:80], case)
+        return None
+
+
+def _check_window(ctx, mon, T, mode, length, st, en, sz, orp, ovl, container, forms='iiiii', content='num',
+                  rv=None):
     cfg = T.cfg
     vals = (st, en, sz, orp, ovl)
     case = {'mode': mode, 'length': length, 'start': st, 'end': en, 'size': sz,
